@@ -378,9 +378,9 @@ func c12Float(c *fw.Ctx, idx int) {
 
 func init() {
 	fw.Register(&fw.Monitor{
-		ID:    "C12",
-		Title: "segment intersection is classified exactly and located accurately",
-		Rule: "RobustLineIntersector results compared with an exact rational classification (none / point / collinear overlap), in all 8 symmetric presentations of each pair: every ordered pair of non-degenerate segments on a 4x4 grid; constructed pairs on integer grids up to 2^20 (lattice crossings, shared endpoints, T-junctions, collinear overlapping/touching/disjoint, parallel, near misses, long nearly parallel crossings); endpoint meetings must be reported exactly, proper crossings within 64*2^-53*S^3/|d1 x d2| of the exact rational crossing and inside both envelopes, overlaps with exactly the true endpoints; NonRobustLineIntersector must agree on HasIntersection for integer inputs; float pairs a few ulps off those configurations are checked for classification only. distinct_nontrivial = distinct segment pairs",
+		ID:     "C12",
+		Title:  "segment intersection is classified exactly and located accurately",
+		Rule:   "RobustLineIntersector results compared with an exact rational classification (none / point / collinear overlap), in all 8 symmetric presentations of each pair: every ordered pair of non-degenerate segments on a 4x4 grid; constructed pairs on integer grids up to 2^20 (lattice crossings, shared endpoints, T-junctions, collinear overlapping/touching/disjoint, parallel, near misses, long nearly parallel crossings); endpoint meetings must be reported exactly, proper crossings within 64*2^-53*S^3/|d1 x d2| of the exact rational crossing and inside both envelopes, overlaps with exactly the true endpoints; NonRobustLineIntersector must agree on HasIntersection for integer inputs; float pairs a few ulps off those configurations are checked for classification only. distinct_nontrivial = distinct segment pairs",
 		Assume: []string{"math/big rational arithmetic is exact"},
 		Classes: []fw.Class{
 			{Name: "exhaustive-4x4", Quick: 65536, Thorough: 65536, Run: c12Exhaustive, Exhaustive: "every ordered pair of non-degenerate segments with endpoints on a 4x4 grid (57,600 pairs) x 8 presentations"},
